@@ -1,5 +1,5 @@
 (* Atoms: every scalar the encoder writes is one token that ends in a value byte. *)
-From Coq Require Import List ZArith NArith Bool Lia.
+From Coq Require Import List ZArith NArith Bool Lia DecimalPos.
 From Coq.Strings Require Import Byte.
 Import ListNotations.
 From Zap Require Import Base.Wire Enc.Bytes Enc.Decimal Enc.Fields Enc.JsonEnc Enc.JsonParse Enc.JsonAst Enc.Wf Enc.Refine1.
@@ -11,23 +11,17 @@ Proof.
 Qed.
 
 Definition isdig (b : byte) : Prop := exists m, b = hexdigit m.
-Lemma digits_fuel_shape fuel : forall n acc, fuel <> 0 ->
-  exists pre, digits_fuel fuel n acc = pre ++ acc /\ pre <> [] /\ Forall isdig pre.
+Lemma uint_bytes_digs d : Forall isdig (uint_bytes d).
 Proof.
-  induction fuel as [|f IH]; intros n acc H; [congruence|]. cbn [digits_fuel].
-  destruct (n <? 10)%N.
-  - exists [digit n]. repeat split; [discriminate|]. constructor; [now exists n|constructor].
-  - destruct f as [|f'].
-    + cbn. exists [digit (n mod 10)%N]. repeat split; [discriminate|]. constructor; [eexists; reflexivity|constructor].
-    + destruct (IH (n / 10)%N (digit (n mod 10)%N :: acc) ltac:(discriminate)) as (pre & E & Hn & Hd).
-      exists (pre ++ [digit (n mod 10)%N]). rewrite E, <- app_assoc. repeat split.
-      * intros C. apply app_eq_nil in C as [_ C]. discriminate.
-      * apply Forall_app. split; [exact Hd|]. constructor; [eexists; reflexivity|constructor].
+  induction d; cbn [uint_bytes]; constructor; auto;
+    [exists 0%N|exists 1%N|exists 2%N|exists 3%N|exists 4%N|exists 5%N|exists 6%N|exists 7%N|exists 8%N|exists 9%N]; reflexivity.
 Qed.
+Lemma uint_bytes_nonnil d : d <> Decimal.Nil -> uint_bytes d <> [].
+Proof. destruct d; cbn; congruence. Qed.
 Lemma print_N_shape n : print_N n <> [] /\ Forall isdig (print_N n).
 Proof.
-  unfold print_N. destruct (digits_fuel_shape (S (N.to_nat (N.size n))) n [] ltac:(discriminate)) as (pre & E & Hn & Hd).
-  rewrite E, app_nil_r. auto.
+  unfold print_N. split; [|apply uint_bytes_digs]. apply uint_bytes_nonnil.
+  destruct n as [|p]; [discriminate|]. cbn [N.to_uint]. apply DecimalPos.Unsigned.to_uint_nonnil.
 Qed.
 Lemma digs_tail l : l <> [] -> Forall isdig l -> forall a, tail_ok (a ++ l).
 Proof.
